@@ -275,6 +275,7 @@ func readShards(dst [][]byte, in []io.Reader) error {
 		panic("internal error: in and dst size do not match")
 	}
 	size := -1
+	full := false
 	for i := range in {
 		if in[i] == nil {
 			dst[i] = dst[i][:0]
@@ -294,10 +295,15 @@ func readShards(dst [][]byte, in []io.Reader) error {
 			}
 			dst[i] = dst[i][0:n]
 		case nil:
+			full = true
 			continue
 		default:
 			return StreamReadError{Err: err, Stream: i}
 		}
+	}
+	if full && size >= 0 {
+		// Some streams ended while others filled the block.
+		return ErrShardSize
 	}
 	if size == 0 {
 		return io.EOF
@@ -358,6 +364,7 @@ func cReadShards(dst [][]byte, in []io.Reader) error {
 	wg.Wait()
 	close(res)
 	size := -1
+	full := false
 	for r := range res {
 		switch r.err {
 		case io.ErrUnexpectedEOF, io.EOF:
@@ -369,9 +376,14 @@ func cReadShards(dst [][]byte, in []io.Reader) error {
 			}
 			dst[r.n] = dst[r.n][0:r.size]
 		case nil:
+			full = true
 		default:
 			return StreamReadError{Err: r.err, Stream: r.n}
 		}
+	}
+	if full && size >= 0 {
+		// Some streams ended while others filled the block.
+		return ErrShardSize
 	}
 	if size == 0 {
 		return io.EOF
